@@ -20,7 +20,8 @@ REGISTRY = {
         'modules': ['contracts.line_irc'], 'level': 'proof',
         'level_text': 'For every message state (any prefix, command, argument list) Message.__str__/__bytes__ yield exactly one '
                       'CRLF-terminated line or raise Error; splitLines and Line._on_read obey the stash discipline for every '
-                      'input; segmentation invariance then follows by a Lean-checked lemma from the re.split concatenation axiom.',
+                      'input; segmentation invariance then follows by a Lean-checked lemma from the re.split concatenation axiom.'
+                      ' Round 5: Message.__init__ stores every argument as text before the check (bytes decoded, up to three arguments of every kind combination); parsemsg is exact per call for every byte string (prefix, command, words, trailing text verbatim).',
         'level_note': 'trusted: re.split axiom (validated only up to a bound against CPython), str.join containment lemma, '
                       'str.encode, str.split() as the uninterpreted word list; parsemsg is proved exact per call, the round trip parsemsg(bytes(m)) has only a bounded stand-in (labelled, not counted as proved).',
         'explanation': 'contracts on Message and the line splitter discharged by z3/cvc5; Lean lemma for all segmentations',
@@ -42,7 +43,8 @@ REGISTRY = {
         'modules': ['contracts.sockets'], 'level': 'proof',
         'level_text': 'Ghost byte-conservation invariant accepted ++ flatten(buffer) = offered, proved for every outcome of send '
                       '(accept k of n, each errno class) on every path of write/_write/_on_write/close of Server, Client and File; '
-                      'induction over the history of operations is the standard invariant argument (DESIGN 3.1).',
+                      'induction over the history of operations is the standard invariant argument (DESIGN 3.1).'
+                      ' Round 5: the argument-less close() (whole server, also the reaction to `stopped`) visits the listener and every client and judges each by its own buffer.',
         'level_note': 'trusted: socket.send/os.write contract (n in [0,len], prefix accepted, or OSError with nothing accepted), '
                       'BasePoller operations by their contract (C10), lists of sockets viewed as multisets.',
         'explanation': 'conservation and deferred-close contracts discharged by z3/cvc5',
@@ -51,7 +53,8 @@ REGISTRY = {
         'modules': ['contracts.sockets'], 'level': 'proof',
         'level_text': 'Per-operation contracts: one connect on accept, one read event per non-empty recv with those bytes, exactly one '
                       'disconnect from _close for a connected socket, and the NoResidue invariant (no client/buffer/close-queue/poller '
-                      'entry for a socket that is gone) preserved by every handler including late write/close/_on_write.',
+                      'entry for a socket that is gone) preserved by every handler including late write/close/_on_write.'
+                      ' Round 5: the emission contracts of the three pollers (a descriptor reported readable gets its _read event, also next to an error or hang-up bit) are obligations of C12 as well.',
         'level_note': 'trusted: socket.recv/send/close/shutdown/getpeername contracts; peer behaviour enters only through them; '
                       'poller by its BasePoller contract (C10).',
         'explanation': 'life-cycle and residue contracts discharged by z3/cvc5',
@@ -61,7 +64,8 @@ REGISTRY = {
         'level_text': 'BasePoller operations against a multiset model; Mirror invariant (registration tables = ghost kernel interest, '
                       '_map inverse of fileno) re-established by _updateRegistration from any prior state, hence after every operation '
                       'in every order; under Mirror and the kernel contract _process/_generate_events emit exactly the registered-and-'
-                      'reported events, addressed to the registering channel. All inputs, no bound.',
+                      'reported events, addressed to the registering channel. All inputs, no bound.'
+                      ' Round 5: Poll/EPoll._generate_events hand every reported (number, mask) pair to _process exactly once (EINTR is a no-op); a report of POLLNVAL / hang-up / error without pending input discards the descriptor, with the flag values read off __init__.',
         'level_note': 'trusted: select.poll/epoll/select and fileno() contracts (kernel readiness itself is not modelled); the three '
                       'pollers are shown to satisfy one abstract BasePoller contract, stream equality of sockets on top follows from C11/C12.',
         'explanation': 'poller contracts discharged by z3',
@@ -127,7 +131,7 @@ REGISTRY = {
         'not_decided': ['liveness ("keeps processing until stop")', 'stop() from a second thread'],
     },
     'C09': {
-        'modules': ['contracts.core_timers', 'contracts.pollers', 'contracts.pollers_wake'], 'level': 'proof',
+        'modules': ['contracts.core_timers', 'contracts.pollers', 'contracts.pollers_wake', 'contracts.fallback_wake'], 'level': 'proof',
         'level_text': 'Over real-valued time with a non-decreasing clock: a Timer visit fires iff now >= expiry and no unregistration is '
                       'pending, re-arms a persistent timer to now\' + interval (consecutive firings an interval apart), otherwise cuts the '
                       'idle wait to expiry - now; reduce_time_left only lowers; the fallback generator AND the kernel wait of each poller '
@@ -138,7 +142,7 @@ REGISTRY = {
         'explanation': 'timer contracts discharged by z3',
     },
     'C03': {
-        'modules': ['contracts.core_timers', 'contracts.core_dispatch', 'contracts.pollers', 'contracts.pollers_wake'], 'level': 'other',
+        'modules': ['contracts.core_timers', 'contracts.core_dispatch', 'contracts.pollers', 'contracts.pollers_wake', 'contracts.fallback_wake'], 'level': 'other',
         'level_text': 'PARTIAL: only the four sequential mechanisms of the wake-up hand-shake are proved as post-conditions (foreign-thread '
                       'branch of _fire, arming block of the dispatcher, reduce_time_left -> resume, clear-before-wait and timeout reads), '
                       'since round 5 including the poller halves as contracts: BasePoller.resume writes the control pipe on EVERY call, the kernel '
@@ -194,7 +198,8 @@ REGISTRY = {
                       'json.loads can return (dynamic JSON value model): only the declared exceptions escape, and no peer-chosen metadata '
                       'key that the dispatching core reads (set recomputed from the ASTs on every run) is ever set on an event or value. '
                       'Bounded stand-ins (labelled): segmentation of real packet streams, JSON round trip, hostile packet grammar '
-                      'against a live loop.',
+                      'against a live loop.'
+                      ' Round 5: a call is transmitted and remembered under an id no call in flight on this connection has (representation invariant of the pending table proved at every suspension); the pending table is per connection (structural; defect fixed 10ac3b6).',
         'level_note': 'not decided: "executed exactly once on the peer and the result comes back" (two-party protocol over two loops); '
                       'trusted: JSON itself (json.loads raises only JSONDecodeError/RecursionError; objects are self-delimiting, so a tail '
                       'accepted as a packet is a complete one); load_event/firewall/dump_event by their contracts.',
@@ -202,16 +207,17 @@ REGISTRY = {
         'not_decided': ['remote execution exactly once with result return (two-party protocol)', 'JSON round trip beyond the bounded grammar'],
     },
     'C15': {
-        'modules': ['contracts.http_server'], 'level': 'proof',
+        'modules': ['contracts.http_server', 'contracts.http_headers'], 'level': 'proof',
         'level_text': 'Framing case analysis over symbolic bodies: prepare() sets Content-Length to the byte length of a sized body, '
                       'otherwise chunked xor close, Connection header agreeing; _on_response writes status line + headers then the exact '
                       'body (hex framing and one terminator when chunked), nothing for HEAD/1xx/204/304, closes iff announced and '
-                      'releases the client entry; _on_stream frames non-empty chunks and terminates once.',
+                      'releases the client entry; _on_stream frames non-empty chunks and terminates once.'
+                      ' Round 5: a message answered from _on_read (httperror, redirect) leaves no parser on a connection that stays open (keep-alive clause); Headers.__str__/__bytes__: one `name: value CRLF` line per header then exactly one empty line.',
         'level_note': 'trusted/opaque: header formatting (Headers.__bytes__, status line) as uninterpreted functions, hex(), str.encode, '
                       'the lemma sum of part lengths = length of concatenation; an independent decoder is expressed as the framing '
                       'equations, not run.',
         'explanation': 'response framing contracts discharged by z3/cvc5',
-        'not_decided': ['header formatting strings', 'keep-alive sequences of several requests (per-request contracts + C14 clean-up)'],
+        'not_decided': ['header VALUES containing CR/LF (header injection is not part of the statement; Headers.__str__ itself is under contract since round 5)', 'keep-alive sequences of several requests (per-request contracts + C14 clean-up + the no-stale-parser obligation of _on_read)'],
     },
     'C14': {
         'modules': ['contracts.http_server'], 'level': 'proof',
@@ -221,7 +227,8 @@ REGISTRY = {
                       '_on_exception answers a failed read with exactly one httperror carrying a fresh 500 response and _on_httperror '
                       'turns every httperror into exactly one response; the parser contracts of C13 (stash discipline, chunk '
                       'completion signalled only by the terminating chunk) are obligations of C14 as well. Universality over the byte '
-                      'language of the grammar functions is bounded (see C13).',
+                      'language of the grammar functions is bounded (see C13).'
+                      ' Round 5: response/stream handlers create per-connection state - in any table of the component, including tables the constructor adds - only for a connection that is still known; _on_disconnect releases every such table.',
         'level_note': 'wrappers.Request/Response constructors as summaries; that the dispatcher fires one exception event per raising '
                       'handler and goes on is C04; bytes of the error response are C15.',
         'explanation': 'per-call outcome, clean-up, error-path and parser contracts discharged by z3/cvc5',
@@ -235,7 +242,8 @@ REGISTRY = {
                       'payload and CRLF are present; across all phases and any number of iterations of execute() the unconsumed bytes stay a '
                       'suffix of stash + data (loop invariant: nothing lost, repeated or reordered); _parse_firstline signals a rejected '
                       'line through errno. The Lean lemma Seg.segmentation_invariant turns the per-step facts into equality '
-                      'for all segmentations. Grammar functions are opaque (bounded purity/segmentation stand-in, labelled).',
+                      'for all segmentations. Grammar functions are opaque (bounded purity/segmentation stand-in, labelled).'
+                      ' Round 5: the client-side handler (protocols/http.py HTTP._on_client_read) is under contract: every read whole and once to the parser, a response event only with a complete header block, the parser kept iff nothing was fired.',
         'level_note': 'trusted: correspondence between the Lean step and the loop body; unicode_escape/urlsplit/regex grammar opaque; '
                       'web/http.py and protocols/http.py callers use the parser through its contract (C14).',
         'explanation': 'parser stash-discipline contracts discharged by z3/cvc5 + Lean lemma; grammar bounded',
